@@ -213,8 +213,16 @@ func startEngine(same bool, keysFile string) (*inst, error) {
 			time.Sleep(10 * time.Millisecond)
 		}
 		if ok {
-			in.engine = e
-			return in, nil
+			// make sure it is OUR engine that answers on both ports (another process may have grabbed a port in between)
+			_, r1, _, e1 := in.request("internal", http.MethodGet, "/status", nil)
+			_, r2, _, e2 := in.request("public", http.MethodGet, "/pub/x", nil)
+			if e1 == nil && e2 == nil && len(r1) == 1 && r1[0] == "status" && len(r2) == 1 && r2[0] == "public" {
+				in.engine = e
+				return in, nil
+			}
+			lastErr = fmt.Errorf("listeners %s / %s are not served by this engine", in.internal, in.public)
+			_ = e.Shutdown()
+			continue
 		}
 		lastErr = fmt.Errorf("listeners %s / %s did not come up", in.internal, in.public)
 		_ = e.Shutdown()
